@@ -70,10 +70,9 @@ def eval_case(case):
     per = 2 if k > 0 else 1
     for lane in range(sims):
         cap, _ = out[lane * per].split(' ')
-        # '!' = KV.iterAccepted off: at SOME iterate 0..k-1 (k-1 request) / 0..k (k request) the evaluator's labelling is not accepted by
-        # consistentB (combinational loop) — hypothesis of C01.cycle_iter_iterState not met, lane skipped
-        if cap.endswith('!') or (k > 0 and out[lane * per + 1].split(' ')[0].endswith('!')):
-            return True, {'skipped': 'no consistent labelling (combinational loop)'}, None
+        # '!' = KV.iterAccepted net (k-1) off: at SOME iterate 0..k-1 the evaluator's labelling is not accepted by consistentB
+        # (combinational loop) — exactly the hypothesis `hacc` of C01.cycle_iter_iterState is not met: lane skipped
+        if cap.endswith('!'): return True, {'skipped': 'no consistent labelling at some iterate (combinational loop)'}, None
         for j, ch in enumerate(cap):
             if ch == '-': continue
             got = int(s1[j, lane]) & 1
